@@ -66,6 +66,9 @@ def canon(v, _depth=0):
         return ["L", [canon(x, _depth + 1) for x in v]]
     if isinstance(v, (list, tuple)):
         return ["L", [canon(x, _depth + 1) for x in v]]
+    if type(v).__module__.startswith("pandas") and hasattr(v, "to_numpy") and hasattr(v, "__len__"):
+        # a pandas extension array (e.g. the string dtype's column values): judged by its elements
+        return ["L", [canon(x, _depth + 1) for x in list(v)]]
     if isinstance(v, (KGFn, KGLambda, KGFnWrapper)):
         ar = getattr(v, "arity", None)
         if ar is None and hasattr(v, "get_arity"):
